@@ -109,19 +109,35 @@ def check_case(ctx, case, enum=False, cache=None):
         if entry == "sign":
             digest = hf(payload).digest()
             use_default = case.get("default_hash", False)
-            sig = sk.sign(as_type(payload, ptype), hashfunc=None if use_default else hf, sigencode=enc, **kw)
-            ok = vk.verify(sig, payload, hashfunc=None if use_default else hf, sigdecode=dec)
+            if case.get("positional"):
+                # sign(data, entropy, hashfunc, sigencode, k, allow_truncate) / verify(signature, data, hashfunc, sigdecode, allow_truncate)
+                sig = sk.sign(as_type(payload, ptype), kw.get("entropy"), None if use_default else hf, enc, kw.get("k"), True)
+                ok = vk.verify(sig, payload, None if use_default else hf, dec, True)
+            else:
+                sig = sk.sign(as_type(payload, ptype), hashfunc=None if use_default else hf, sigencode=enc, **kw)
+                ok = vk.verify(sig, payload, hashfunc=None if use_default else hf, sigdecode=dec)
         elif entry == "sign_digest":
             digest = payload
             imp = {} if (at is False and dd % 2) else {"allow_truncate": at}     # default left implicit
-            sig = sk.sign_digest(as_type(digest, ptype), sigencode=enc, **imp, **kw)
-            ok = vk.verify_digest(sig, as_type(digest, case.get("vtype", "bytes")), sigdecode=dec, **imp)
+            if case.get("positional"):
+                # documented order: sign_digest(digest, entropy, sigencode, k, allow_truncate) /
+                # verify_digest(signature, digest, sigdecode, allow_truncate)
+                sig = sk.sign_digest(as_type(digest, ptype), kw.get("entropy"), enc, kw.get("k"), at)
+                ok = vk.verify_digest(sig, as_type(digest, case.get("vtype", "bytes")), dec, at)
+            else:
+                sig = sk.sign_digest(as_type(digest, ptype), sigencode=enc, **imp, **kw)
+                ok = vk.verify_digest(sig, as_type(digest, case.get("vtype", "bytes")), sigdecode=dec, **imp)
         elif entry == "sign_deterministic":
             digest = hf(payload).digest()
             extra = bytes.fromhex(nonce[1]) if nonce[0] == "rfc" else b""
             use_default = case.get("default_hash", False)
-            sig = sk.sign_deterministic(as_type(payload, ptype), hashfunc=None if use_default else hf, sigencode=enc,
-                                        extra_entropy=as_type(extra, case.get("vtype", "bytes")))
+            if case.get("positional"):
+                # sign_deterministic(data, hashfunc, sigencode, extra_entropy)
+                sig = sk.sign_deterministic(as_type(payload, ptype), None if use_default else hf, enc,
+                                            as_type(extra, case.get("vtype", "bytes")))
+            else:
+                sig = sk.sign_deterministic(as_type(payload, ptype), hashfunc=None if use_default else hf, sigencode=enc,
+                                            extra_entropy=as_type(extra, case.get("vtype", "bytes")))
             ok = vk.verify(sig, as_type(payload, case.get("vtype", "bytes")), hashfunc=None if use_default else hf,
                            sigdecode=dec)
         elif entry == "sign_digest_deterministic":
@@ -226,7 +242,7 @@ def toy_sweep(ctx, cname, digests, encs):
 
 def st_case(names, toy):
     def mk(cname, di, ki, u1, u2, hname, encname, entry, payload, nk, extra, prefix, seed, at, vr, sr, flag, dh, pre=None,
-           ptype="bytes", vtype="bytes"):
+           ptype="bytes", vtype="bytes", positional=False):
         dm = gen.dom(cname)
         n = dm.n
         bs = gen.boundary_scalars(n)
@@ -250,7 +266,7 @@ def st_case(names, toy):
                 "nonce": nonce, "at": at, "vk_route": vroutes[vr % len(vroutes)] if vr >= 0 else "none",
                 "sk_route": sroutes[sr % len(sroutes)] if sr >= 0 else "none",
                 "vk_from_reloaded_sk": flag, "default_hash": dh, "boundary": di >= 0 or (nk == 0 and ki >= 0),
-                "precompute": pre, "ptype": ptype, "vtype": vtype}
+                "precompute": pre, "ptype": ptype, "vtype": vtype, "positional": positional}
 
     payloads = st.one_of(st.binary(max_size=70), st.binary(min_size=100, max_size=200),
                          st.sampled_from([b"", b"\x00", b"\xff" * 66, bytes(66), b"\x80" + bytes(31)]))
@@ -262,7 +278,8 @@ def st_case(names, toy):
         st.one_of(st.binary(max_size=3), st.sampled_from([b"\xff" * 70, bytes(70)])), st.integers(0, 2 ** 64 - 1),
         st.booleans(), st.integers(-12, 12), st.integers(-8, 8), st.booleans(), st.booleans(),
         st.sampled_from([None, None, None, "lazy", "eager"]),
-        st.sampled_from(["bytes", "bytes"] + PAYLOAD_TYPES), st.sampled_from(["bytes", "bytes", "bytearray", "memoryview", "array-B"]))
+        st.sampled_from(["bytes", "bytes"] + PAYLOAD_TYPES), st.sampled_from(["bytes", "bytes", "bytearray", "memoryview", "array-B"]),
+        st.sampled_from([False, False, True]))
 
 
 def sweep_cases(names, full):
@@ -287,7 +304,7 @@ def sweep_cases(names, full):
                    "payload": payload.hex(), "nonce": nonce, "at": True, "boundary": True,
                    "sk_route": sroutes[(j // 3 + ci) % len(sroutes)], "vk_route": vroutes[(j // 5 + 2 * ci) % len(vroutes)],
                    "vk_from_reloaded_sk": (j // 7) % 3 == 0, "default_hash": j % 2 == 0,
-                   "precompute": (None, "lazy", None, "eager")[(j // 2) % 4]}
+                   "precompute": (None, "lazy", None, "eager")[(j // 2) % 4], "positional": (j // 4) % 2 == 1}
 
 
 def units(tier, seed):
